@@ -39,6 +39,15 @@ impl ChainService {
 
         let clean_expired_orphan_timer =
             crossbeam::channel::tick(std::time::Duration::from_secs(60));
+        // verif hook: the period of the orphan-expiry tick can be shortened (VERIF_ORPHAN_TICK_MS)
+        #[cfg(ckb_verif)]
+        let clean_expired_orphan_timer = match std::env::var("VERIF_ORPHAN_TICK_MS")
+            .ok()
+            .and_then(|s| s.parse::<u64>().ok())
+        {
+            Some(ms) => crossbeam::channel::tick(std::time::Duration::from_millis(ms)),
+            None => clean_expired_orphan_timer,
+        };
 
         loop {
             select! {
